@@ -81,6 +81,20 @@ def code_id(code):
     return -2
 
 
+FALSY = 1000     # script value that stands for the integer 0: a result that is not None but falsy
+
+
+def vid(x):
+    """value id of a handler result for trace lines"""
+    if x is None:
+        return 0
+    if isinstance(x, tuple) and len(x) == 3:
+        return -1
+    if isinstance(x, int) and not isinstance(x, bool):
+        return FALSY if x == 0 else x
+    return -2
+
+
 class ScriptError(Exception):
     """Raised by a scripted handler's `raise` op."""
 
@@ -318,7 +332,7 @@ class Universe:
                 self.log.append(line('ret', e=e, h=hid, f=1, v=-1,
                                      x=1 if isinstance(exc, SystemExit) else 2 if isinstance(exc, KeyboardInterrupt) else 0))
                 raise
-            self.log.append(line('ret', e=e, h=hid, v=v or 0))
+            self.log.append(line('ret', e=e, h=hid, v=vid(v)))
             return v
         finally:
             self.stack.pop()
@@ -384,7 +398,7 @@ class Universe:
                 self.log.append(line('op', e=e, h=hid, n='stop'))
                 event.stop()
             elif o == 'ret':
-                ret = op[1]
+                ret = 0 if op[1] == FALSY else op[1]
             elif o == 'raise':
                 self.log.append(line('op', e=e, h=hid, n='raise'))
                 raise ScriptError('scripted failure h%d e%d' % (hid, e))
@@ -458,14 +472,15 @@ class Universe:
             if susp is None:
                 if ret is not None:
                     # a generator delivers its final value by yielding it
-                    self.log.append(line('yld', e=e, h=hid, v=ret))
+                    self.log.append(line('yld', e=e, h=hid, v=vid(ret)))
                     yield ret
                     self.log.append(line('step', e=e, h=hid, d=step + 1))
                 self.log.append(line('gend', e=e, h=hid))
                 return
             if susp[0] == 'yield':
-                self.log.append(line('yld', e=e, h=hid, v=susp[1] or 0))
-                yield susp[1]
+                yv = 0 if susp[1] == FALSY else susp[1]
+                self.log.append(line('yld', e=e, h=hid, v=vid(yv)))
+                yield yv
             else:
                 spec = susp[1]
                 kw = {}
@@ -507,15 +522,13 @@ class Universe:
                     continue
                 v = getattr(val, 'value', val)
                 errs = bool(getattr(val, 'errors', False))
-                if isinstance(v, tuple) and len(v) == 3:
-                    vid = -1
-                elif isinstance(v, list):
-                    vid = sum((x if isinstance(x, int) else -1) for x in v) * 1000 + len(v)
+                if isinstance(v, list):
+                    rv = sum(vid(x) for x in v) * 1000 + len(v)
                 else:
-                    vid = v if isinstance(v, int) else (0 if v is None else -2)
+                    rv = vid(v)
                 if awaited is not None and not isinstance(awaited, str):
                     e2 = self.eid.get(id(awaited), 0)
-                self.log.append(line('resume', e=e, h=hid, v=vid, f=1 if errs else 0, x=e2))
+                self.log.append(line('resume', e=e, h=hid, v=rv, f=1 if errs else 0, x=e2))
 
     # -------------------------------------------------------------------- api
     def api_fire(self, cid, spec):
@@ -649,12 +662,6 @@ class Universe:
             raw = val.getValue(recursive=False) if hasattr(val, 'getValue') else None
             items = raw if isinstance(raw, list) else ([] if (raw is None and not val.result) else [raw])
 
-            def vid(x):
-                if isinstance(x, tuple) and len(x) == 3:
-                    return -1
-                if isinstance(x, int) and not isinstance(x, bool):
-                    return x
-                return -2
             for it in items:
                 self.log.append(line('vitem', e=e, v=vid(it)))
             self.log.append(line('vend', e=e, f=1 if val.errors else 0, d=len(items), x=1 if isinstance(raw, list) else 0,
